@@ -356,6 +356,8 @@ def ev(e, env, whole=True):
             raise Undefined("subscript-of-non-array")
         if is_boolish(idx) or not is_num(idx) or isinstance(idx, complex) or idx != int(idx):
             raise Undefined("non-integral-subscript")
+        if getattr(env, "strict_int_index", False) and not isinstance(idx, (int, np.integer)):
+            raise Undefined("non-int-typed-subscript")
         idx = int(idx)
         if not (0 <= idx < len(agg)):
             raise Undefined("subscript-out-of-range")
